@@ -1525,3 +1525,67 @@ def f14(ctx):
                           '%s: %s defaults to %r, every other entry point uses %r: the same call '
                           'behaves differently here' % (q, arg.arg, d.value, want), mod.loc(fn))
     ctx.analysed['option_defaults'] = n
+
+
+@rule('T9', floor=4, title='tree_flatten_one_level reports the node as the registry entry describes it')
+def t9(ctx):
+    """The one-level result is (children, metadata, entries, unflatten_func) of the handler found for
+    `type(tree)` in the caller's namespace, plus type = that type, kind and path_entry_type = the
+    handler's.  Each piece is checked to come from where the engine takes it."""
+    pkg = ctx.py()
+    mod = pkg.mod('optree.ops')
+    fn = mod.func('tree_flatten_one_level')
+    tree = tree_param(fn) or _pos_params(fn)[0].arg
+    env = {}
+    nt = h = None
+    for s_ in walk(fn):
+        if isinstance(s_, ast.Assign) and len(s_.targets) == 1 and isinstance(s_.targets[0], ast.Name):
+            if pmatch(s_.value, 'type(?t)', {'t': tree}) is not None:
+                nt = s_.targets[0].id
+            m = pmatch(s_.value, 'register_pytree_node.get(?nt, namespace=namespace)', {'nt': nt}) if nt else None
+            if m is not None:
+                h = s_.targets[0].id
+    ctx.require(nt is not None and h is not None,
+                'tree_flatten_one_level: `type(tree)` / `register_pytree_node.get(<type>, namespace=namespace)` not found')
+    rets = [s for s in walk(fn) if isinstance(s, ast.Return) and isinstance(s.value, ast.Name)]
+    ctx.require(len(rets) == 1, 'tree_flatten_one_level: result variable not recognised')
+    out = rets[0].value.id
+    ctor = [s_.value for s_ in walk(fn) if isinstance(s_, ast.Assign) and is_name(s_.targets[0], out) and
+            isinstance(s_.value, ast.Call)]
+    ctx.require(len(ctor) == 1, 'tree_flatten_one_level: constructor of the result not recognised')
+    kws = {k.arg: k.value for k in ctor[0].keywords}
+    # children / metadata / entries: the three results of handler.flatten_func(tree), by position
+    flat = None
+    for s_ in walk(fn):
+        if isinstance(s_, ast.Assign) and isinstance(s_.targets[0], ast.Tuple) and len(s_.targets[0].elts) == 3 and \
+                all(isinstance(e, ast.Name) for e in s_.targets[0].elts):
+            flat = [e.id for e in s_.targets[0].elts]
+    ctx.require(flat is not None, 'tree_flatten_one_level: unpacking of the flatten result not found')
+    fcalls = [c for c in calls_under(fn) if pmatch(c, '?h.flatten_func(?t)', {'h': h, 't': tree}) is not None]
+    want = {'children': flat[0], 'metadata': flat[1], 'entries': flat[2]}
+    bad = []
+    for k, v in want.items():
+        if not (k in kws and is_name(kws[k], v)):
+            bad.append('%s=%s' % (k, src(kws[k]) if k in kws else 'missing'))
+    if not ('unflatten_func' in kws and pmatch(kws['unflatten_func'], '?h.unflatten_func', {'h': h}) is not None):
+        bad.append('unflatten_func=%s' % (src(kws['unflatten_func']) if 'unflatten_func' in kws else 'missing'))
+    if len(fcalls) != 1:
+        bad.append('%d calls of the handler\'s flatten function on the tree' % len(fcalls))
+    ctx.check('tree_flatten_one_level/result-fields', not bad,
+              'children, metadata, entries are the three results of handler.flatten_func(tree), in this '
+              'order, and unflatten_func is the handler\'s',
+              'tree_flatten_one_level builds its result with %s' % '; '.join(bad), mod.loc(ctor[0]))
+    attrs = {}
+    for s_ in walk(fn):
+        if isinstance(s_, ast.Assign) and len(s_.targets) == 1 and isinstance(s_.targets[0], ast.Attribute) and \
+                is_name(s_.targets[0].value, out):
+            attrs[s_.targets[0].attr] = s_.value
+    for a_, pat, envp in (('type', '?nt', {'nt': nt}), ('kind', '?h.kind', {'h': h}),
+                          ('path_entry_type', '?h.path_entry_type', {'h': h})):
+        v = attrs.get(a_, kws.get(a_))
+        ok = v is not None and pmatch(v, pat, envp) is not None
+        ctx.check('tree_flatten_one_level/%s' % a_, ok,
+                  'the result\'s %s is %s' % (a_, pat.replace('?nt', 'type(tree)').replace('?h', 'handler')),
+                  'the result\'s %s is %s, the engine reports %s' % (
+                      a_, src(v) if v is not None else 'never set',
+                      pat.replace('?nt', 'type(tree)').replace('?h', 'the registry entry')), mod.loc(fn))
